@@ -202,7 +202,7 @@ def rule_joins(S, res):
                 res.bad("R8.join", inst, "branches of this join macro share a direction (%s)" % [sorted(d) for d in dirs], where(b, md[0][0]))
             else:
                 res.ok("R8.join", inst, where(b, md[0][0]), "branches are direction-disjoint: %s" % [sorted(d) for d in dirs])
-    res.floor("join_sites", n_join, 12)
+    res.floor("join_sites", n_join, 4)
 
 
 def rule_sequential(S, res):
@@ -276,7 +276,7 @@ def rule_sequential(S, res):
                 bad += 1
                 res.bad("R8.seq", "%s|%s->%s" % (b.owner.replace("polytune::", ""), nm.rsplit("::", 1)[-1], nmj.rsplit("::", 1)[-1]),
                         "a channel operation is started while an earlier one (%s) may still be outstanding and the two are not branches of one join" % nm.rsplit("::", 1)[-1], where(b, bj))
-    res.floor("sequenced_channel_operation_pairs", n, 40)
+    res.floor("sequenced_channel_operation_pairs", n, 20)
     if not bad:
         res.ok("R8.seq", "engine", "", "%d ordered pairs of channel operations: each earlier one is awaited first or both are branches of one join" % n)
 
@@ -305,7 +305,7 @@ def rule_roles(S, res):
         which = "received" if not d["recv"] else "sent"
         s = (d["send"] or d["recv"])[0]
         res.bad("R8.pair", "%s|pair" % l, "message %r is never %s: its counterpart would wait forever" % (l, which), fl(s.sp))
-    res.floor("labels_paired", n, 24)
+    res.floor("labels_paired", n, 12)
     if not [v for v in res.violations if v["rule"] == "R8.pair"]:
         res.ok("R8.pair", "labels", "", "%d labels, each has a send and a receive site" % n)
     # prior-label agreement inside one function family
